@@ -31,6 +31,7 @@ def run(ctx):
     from . import c04 as _c04, c03 as _c03
     ctx.rule('C14.SCRUB', lambda: _c04.rule_scrub(ctx, 'C14'), 6)
     ctx.rule('C14.TRUNC', lambda: _c03.rule_trunc(ctx), 3)
+    ctx.rule('C14.STORAGE', lambda: _c04.rule_storage_batch(ctx, 'C14'), 2)
 
 
 def rule_batch(ctx):
